@@ -661,7 +661,13 @@ class PrecipitateModel (PrecipitateBase):
                         self.PSDXalpha[p] = np.concatenate((self.PSDXalpha[p], np.zeros((self.PBM[p].bins+1 - len(self.PSDXalpha[p]),1))))
                         self.PSDXbeta[p] = np.concatenate((self.PSDXbeta[p], np.zeros((self.PBM[p].bins+1 - len(self.PSDXbeta[p]),1))))
                         #New classes are evaluated at the temperature the rest of the table was built at (current temperature - dTemp)
-                        self.PSDXalpha[p][addedIndices:,0], self.PSDXbeta[p][addedIndices:,0] = self.therm.getInterfacialComposition(self.pData.temperature[self.pData.n] - self.dTemp, self.particleGibbs(self.PBM[p].PSDbounds[addedIndices:], self.precipitateParameters[p].phase), precPhase=self.precipitateParameters[p].phase)
+                        xAnew, xBnew = self.therm.getInterfacialComposition(self.pData.temperature[self.pData.n] - self.dTemp, self.particleGibbs(self.PBM[p].PSDbounds[addedIndices:], self.precipitateParameters[p].phase), precPhase=self.precipitateParameters[p].phase)
+                        xAnew, xBnew = np.atleast_1d(xAnew).astype(np.float64), np.atleast_1d(xBnew).astype(np.float64)
+                        #If the calculation failed (-1) for a new class, continue from the last valid class
+                        failed = xAnew == -1
+                        xAnew[failed] = self.PSDXalpha[p][addedIndices-1,0]
+                        xBnew[failed] = self.PSDXbeta[p][addedIndices-1,0]
+                        self.PSDXalpha[p][addedIndices:,0], self.PSDXbeta[p][addedIndices:,0] = xAnew, xBnew
                 else:
                     self.PSDXalpha[p] = np.zeros((self.PBM[p].bins + 1, self.numberOfElements))
                     self.PSDXbeta[p] = np.zeros((self.PBM[p].bins + 1, self.numberOfElements))
